@@ -110,9 +110,12 @@ def check_generic(ctx, gq):
     if walker is None:
         raise AnalysisError('generic check has no credential walker')
 
-    def inline(call, frame):
-        return None
-    t = Table(prog, f)
+    from ..dte import inline_self_methods
+    helpers = {g.qual for q in prog.mro(gq) if q in prog.classes
+               for g in prog.classes[q].methods.values()
+               if not g.name.startswith('__') and g is not walker}
+    t = Table(prog, f, inline=inline_self_methods(prog, only=helpers)
+              if helpers else None)
     W = ctx.where(f.module, f.node)
     is_match = lambda x: substituted_match(t, x, target_p)
     n_lit = n_walk = n_subst = 0
